@@ -32,7 +32,8 @@ Access = collections.namedtuple('Access', 'cls field mode path locks root chain 
 
 
 def merge_mode(a, b):
-    if a is None: return b
+    if a is None or a == 'N': return b
+    if b == 'N': return a
     if a == b: return a
     return 'W' if 'W' in (a, b) else a
 
@@ -47,7 +48,7 @@ def compute_modes(fn):
         if k == 'member':
             modes[n.id] = merge_mode(modes.get(n.id), m)
             b = n.n('base')
-            if n.field: d(b, 'R' if n.arrow else m)
+            if n.field: d(b, 'R' if n.arrow else ('N' if m == 'N' else m))
             else: d(b, 'R')
             return
         if k == 'ref':
@@ -122,7 +123,11 @@ def compute_modes(fn):
             for v in n.vars:
                 if v.get('init'):
                     init = Node(n.tu, v['init'])
-                    d(init, 'R')
+                    # binding a reference / taking an address designates the object without touching its contents ('N');
+                    # the uses of the alias are recorded where they happen
+                    if v.get('isref') and _designates(init): d(init, 'N')
+                    elif v.get('isptr') and init.k == 'unop' and init.op == '&' and _designates(init.n('sub')): d(init.n('sub'), 'N')
+                    else: d(init, 'R')
             return
         if k == 'rangefor':
             d(n.n('range'), 'R'); d(n.n('body'), 'R'); return
@@ -135,6 +140,16 @@ def compute_modes(fn):
     return modes
 
 
+def _designates(n):
+    """expression that names an object (field / variable / element of a raw array) without computing anything"""
+    while n is not None:
+        if n.k in ('member', 'ref'): return n.k == 'ref' or bool(n.field)
+        if n.k == 'cast': n = n.n('sub'); continue
+        if n.k == 'call' and (n.calleeq or '') in TRANSPARENT_STD and n.ns('args'): n = n.ns('args')[0]; continue
+        return False
+    return False
+
+
 def _is_xvalue(a):
     if a.cat == 'x': return True
     if a.k == 'call' and (a.calleeq in ('std::move',)): return True
@@ -142,12 +157,19 @@ def _is_xvalue(a):
     return False
 
 
-class Frame:
-    __slots__ = ('fn', 'env', 'this', 'modes', 'chain', 'depth', 'ctor_obj')
+class Env(dict):
+    """decl -> access path, plus .ainfo: decl -> (class, field, ftype) for aliases that designate a field"""
+    def __init__(self, *a, **k):
+        super().__init__(*a, **k); self.ainfo = {}
 
-    def __init__(self, fn, env, this, chain, depth, ctor_obj=None):
+
+class Frame:
+    __slots__ = ('fn', 'env', 'this', 'modes', 'chain', 'depth', 'ctor_obj', 'ainfo')
+
+    def __init__(self, fn, env, this, chain, depth, ctor_obj=None, ainfo=None):
         self.fn = fn; self.env = env; self.this = this; self.chain = chain; self.depth = depth
         self.modes = None; self.ctor_obj = ctor_obj
+        self.ainfo = dict(ainfo or getattr(env, 'ainfo', None) or {})      # alias decl -> (class, field, ftype) of the field the alias designates
 
 
 class Engine:
@@ -209,6 +231,21 @@ class Engine:
         if k == 'new': return ('new', n.id)
         if k == 'construct': return ('tmp', n.id)
         return ('?', n.id)
+
+    def field_info(self, n, fr):
+        """(class, field, ftype) if expression n designates a field itself (through casts, &, *ptr, aliases), else None"""
+        while n is not None:
+            if n.k == 'member': return (n.d.get('classfull') or n.d.get('class'), n.name, n.ftype or '') if n.field else None
+            if n.k == 'ref': return fr.ainfo.get(n.decl)
+            if n.k == 'cast': n = n.n('sub'); continue
+            if n.k == 'unop' and n.op == '&': n = n.n('sub'); continue
+            if n.k == 'unop' and n.op == '*':
+                s_ = n.n('sub')
+                while s_ is not None and s_.k == 'cast': s_ = s_.n('sub')
+                return fr.ainfo.get(s_.decl) if (s_ is not None and s_.k == 'ref') else None
+            if n.k == 'call' and (n.calleeq or '') in TRANSPARENT_STD and n.ns('args'): n = n.ns('args')[0]; continue
+            return None
+        return None
 
     def _is_ptr_to_obj(self, n):
         # `*p` where p is a raw pointer variable/field/this: the pointee is what the path of p already denotes
@@ -298,12 +335,18 @@ class Engine:
                     # alias: reference-typed local (or single-assignment pointer) bound to a path
                     if init is not None and (v.get('isref') or v.get('isptr')):
                         p = self.path_of(init, fr)
-                        if p and p[0] not in ('?', 'tmp'): fr.env[v['decl']] = p
+                        if p and p[0] not in ('?', 'tmp'):
+                            fr.env[v['decl']] = p
+                            fi = self.field_info(init, fr) if (v.get('isref') or (init.k == 'unop' and init.op == '&')) else None
+                            if fi is not None: fr.ainfo[v['decl']] = fi
                     if v.get('bindings') and init is not None and v.get('isref'):
                         pass
                 continue
             if k == 'member' and n.field:
                 if record: self._record_access(n, fr, L, root)
+                continue
+            if k == 'ref' and n.decl in fr.ainfo:
+                if record: self._record_alias_access(n, fr, L, root)
                 continue
             if k == 'call':
                 self._call(n, fr, L, root, record)
@@ -317,18 +360,29 @@ class Engine:
 
     def _record_access(self, n, fr, L, root):
         mode = fr.modes.get(n.id, 'R')
+        if mode == 'N': return
         p = self.path_of(n, fr)
         ctor_obj = fr.ctor_obj is not None and p[:len(fr.ctor_obj)] == fr.ctor_obj and len(p) == len(fr.ctor_obj) + 1
         self.accesses.append(Access(n.d.get('classfull') or n.d['class'], n.name, mode, p, frozenset(L), root, tuple(fr.chain) + (fr.fn.name,), n.shortloc(),
                                     fr.fn.name, ctor_obj, n, (n.ftype or '').startswith('std::atomic<')))
 
+    def _record_alias_access(self, n, fr, L, root):
+        mode = fr.modes.get(n.id, 'R')
+        if mode == 'N': return
+        cls, field, ftype = fr.ainfo[n.decl]
+        p = fr.env.get(n.decl) or self.path_of(n, fr)
+        ctor_obj = fr.ctor_obj is not None and p[:len(fr.ctor_obj)] == fr.ctor_obj and len(p) == len(fr.ctor_obj) + 1
+        self.accesses.append(Access(cls, field, mode, p, frozenset(L), root, tuple(fr.chain) + (fr.fn.name,), n.shortloc(), fr.fn.name, ctor_obj, n, ftype.startswith('std::atomic<')))
+
     def _bind(self, callee, call_args, fr, this_path):
-        env = {}
+        env = Env()
         for p, a in zip(callee.d['params'], call_args):
             if a is None: continue
             if p.get('isref') or p.get('isptr'):
                 ap = self.path_of(a, fr)
                 env[p['decl']] = ap
+                fi = self.field_info(a, fr) if (p.get('isref') or (a.k == 'unop' and a.op == '&') or (a.k == 'ref' and a.decl in fr.ainfo)) else None
+                if fi is not None and ap and ap[0] not in ('?', 'tmp'): env.ainfo[p['decl']] = fi
             else:
                 env[p['decl']] = ('local', p['decl'])
         return env
@@ -345,9 +399,11 @@ class Engine:
         self._run(sub, frozenset(L), root)
 
     def _lambda_env(self, lam, fr):
-        env = {}
+        env = Env()
         for c in lam.captures or []:
             if 'decl' not in c: continue
+            if not c.get('initcapture') and c['decl'] in fr.ainfo and (c['mode'] == 'ref' or (c.get('vartype') or '').endswith('*') or c.get('isref')):
+                env.ainfo[c['decl']] = fr.ainfo[c['decl']]
             if c.get('initcapture'):
                 # init-capture: new variable; if initialised from a pointer/reference path keep the alias
                 init = Node(lam.tu, c['init']) if c.get('init') and c['init'] in lam.tu.ex else None
